@@ -226,7 +226,17 @@ func drawStream(t *rapid.T, o streamOpts) *streamModel {
 		return ccs[pid]
 	}
 	used := map[uint16]bool{}
+	var usedList []uint16
 	drawPID := func(label string) uint16 {
+		if len(usedList) > 0 && gen.Chance(t, 15, label+"_alias") {
+			// a PID that differs from one already in the stream in its top bit only
+			p := usedList[gen.Uniform(t, len(usedList), label+"_aliasof")]
+			if q := p ^ 0x1000; q >= 0x20 && q <= 0x1ffe && !used[q] {
+				used[q] = true
+				usedList = append(usedList, q)
+				return q
+			}
+		}
 		for {
 			pid := uint16(rapid.IntRange(0x20, 0x1ffe).Draw(t, label))
 			if gen.Chance(t, 50, label+"_low") {
@@ -234,6 +244,7 @@ func drawStream(t *rapid.T, o streamOpts) *streamModel {
 			}
 			if !used[pid] {
 				used[pid] = true
+				usedList = append(usedList, pid)
 				return pid
 			}
 		}
